@@ -81,6 +81,8 @@ class Lemma:
     group: str = ""
     trig: list[str] = field(default_factory=list)
     var_sorts: dict[str, str] = field(default_factory=dict)
+    on: str = ""  # induction variable
+    uses: list[str] = field(default_factory=list)  # lemma groups/names available while proving this one
 
 
 class Registry:
@@ -92,6 +94,7 @@ class Registry:
         self.lemmas: dict[str, Lemma] = {}
         self.axioms: list[tuple[str, str]] = []  # (name, clause) trusted axioms: listed in evidence
         self.records: dict = {}
+        self.recfns: dict = {}  # name -> dict(params, ret, on, base, step, group)
         self.deffns: dict = {}  # name -> (params, body, group, ret): defined (non-recursive) spec functions
         self.record_defaults: dict = {}
         self.consts: dict = {}
@@ -118,6 +121,10 @@ class Registry:
 
     def deffn(self, name, params, body, group="", ret="bool"):
         self.deffns[name] = (params, body, group, ret)
+
+    def recfn(self, name, params, ret, on, base, step, group=""):
+        """recursive spec function over the integer parameter `on`: f = base if on <= 0 else step (step may call f at on-1)"""
+        self.recfns[name] = dict(params=params, ret=ret, on=on, base=base, step=step, group=group)
 
     def lemma(self, name, vars, body, **kw):
         self.lemmas[name] = Lemma(name, vars, body, **kw)
